@@ -87,7 +87,10 @@ def plan(tier, seed):
         for p, (f, n) in enumerate(split(total, parts)):
             shards.append({'name': f'{kind}{p}', 'mode': 'nrt', 'kind': kind,
                            'first_case': f, 'n': n, 'secs': secs,
-                           'hard_timeout': secs + 180})
+                           'hard_timeout': secs + 180, 'part': p})
+    # interleave the kinds: the evidence keeps the samples of the first shards
+    order = ['timeline', 'play', 'chain', 'scale']
+    shards.sort(key=lambda sh: (sh['part'], order.index(sh['kind'])))
     return shards
 
 
@@ -208,7 +211,7 @@ def run_chain(spec, acc):
                     k = f'C14/key-chain-differs/{key}/from-{src}'
                 acc.violation(k, {'case': i, 'event': ev, 'key': key, 'got': g,
                                   'expected': exp})
-        if acc.want_sample() and pitch_n >= 3:
+        if not acc.samples and pitch_n >= 3:
             acc.sample({'case': i, 'event': ev, 'model': res.as_dict()})
 
 
@@ -248,7 +251,7 @@ def run_scale(spec, acc):
                                'steps_per_octave': spo,
                                'octave_fraction': frac, 'expected': exp})
                 break
-        if acc.want_sample() and sp['kind'] == 'nonet12':
+        if not acc.samples and sp['kind'] == 'nonet12':
             acc.sample({'case': i, 'scale': sp})
 
 
@@ -302,7 +305,7 @@ def run_play(spec, acc):
         for k, detail in bad:
             acc.violation(k if k.startswith('C14/') else f'C14/play/{k}',
                           dict(detail, case=i, program=prog))
-        if acc.want_sample() and len(prog['steps']) <= 2:
+        if not acc.samples and len(prog['steps']) <= 2 and not bad:
             acc.sample({'case': i, 'program': prog,
                         'score': [[t, m.plain()] for t, m in cap.raw]})
 
@@ -376,7 +379,8 @@ def run_timeline(spec, acc):
                 acc.count('tl_with_pdur')
                 if _clips(case['pattern']):
                     acc.count('tl_with_pdur_clipping')
-        if acc.want_sample() and len(kinds) >= 3 and len(tl.items) <= 8:
+        if not acc.samples and len(kinds) >= 3 and len(tl.items) <= 8 \
+                and not bad:
             acc.sample({'case': i, 'timeline_case': case,
                         'expected_total': ex.total,
                         'score': [[t, m.plain()] for t, m in cap.raw]})
